@@ -23,7 +23,8 @@ import traceback
 HERE = os.path.dirname(os.path.dirname(os.path.abspath(__file__)))
 import re
 TRACE_CLAUSE = re.compile(r"\b(n_events|n_calls|call_fn|call_args|call_result|call_kwargs|n_callees|callee_arg|callee_result|"
-                          r"all_calls_from_callee|all_getattr_on)\b")
+                          r"all_calls_from_callee|all_getattr_on|n_requests|request_kind|request_conn|request_args|request_result|"
+                          r"n_ops|op_name|op_target|op_args|op_result|n_local|n_ev|ev_arg)\b")
 
 
 # ---------------------------------------------------------------------------------------------
